@@ -344,6 +344,30 @@ def _effect_free(body):
     return True
 
 
+def _btree_sink_loop(body):
+    """a loop body whose only effect is inserting values built by pure constructors into B-tree collections: the collection's own order
+    makes the visiting order invisible"""
+    b = H.strip(body)
+    stmts = H.stmts_of(b) if H.tag(b) == "block" else [["tail", b]]
+    if not stmts:
+        return False
+    for st in stmts:
+        e = H.strip(st[1]) if st[0] in ("semi", "expr", "tail") else None
+        if e is None or H.tag(e) != "mcall" or e[2] != "insert":
+            return False
+        mc = H.mcall(e)
+        if "btree" not in (mc["recv_ty"] or "").lower():
+            return False
+        for a in mc["args"]:
+            for y in H.walk(a):
+                # constructors / conversions only: no I/O, no mutation
+                if H.tag(y) == "mcall" and y[2] in ("push", "insert", "write", "write_all", "wln", "w", "extend", "remove", "push_str"):
+                    return False
+                if H.tag(y) in ("asg", "asgop", "while", "loop", "for", "mac"):
+                    return False
+    return True
+
+
 def check_tie_order(ctx, F):
     fns = [fn for fn in F.all("fn") if fn.get("hir") is not None and not fn["path"].startswith(OUT_OF_SCOPE)]
     n_sorts = n_partial = n_cons = 0
@@ -438,7 +462,7 @@ def check_tie_order(ctx, F):
                             var = y[1]
                     uses = _uses_of_local(par[3], var) if var else [("whole",)]
                     only_key = key_idx is not None and all(u == ("field", key_idx) for u in uses)
-                    if not only_key and not _effect_free(par[3]):
+                    if not only_key and not _effect_free(par[3]) and not _btree_sink_loop(par[3]):
                         verdict = (f"iterates the vector in order and its loop body has effects that use more than the sort key (`{var}` used as "
                                    f"{sorted(set('.' + u[1] if u[0] == 'field' else 'whole value' for u in uses))})")
                 elif names and names[0] in ("iter", "into_iter"):
